@@ -864,6 +864,12 @@ def run(F, prop=None):
                     t = blk["term"]
                     if t["k"] == "switch" and t["op"]["k"] in ("copy", "move"):
                         l, sp = strip_place(t["op"]["place"])
+                        if len(sp) == 1 and sp[0][0] == "f":
+                            # `match (converged, debug) { .. }`: a component of a tuple built on the spot
+                            ds_ = A.D(body).of(l)
+                            if len(ds_) == 1 and ds_[0][0] == "stmt" and ds_[0][4]["k"] == "agg" and ds_[0][4]["kind"].get("t") == "tuple" \
+                                    and sp[0][1] < len(ds_[0][4]["ops"]) and ds_[0][4]["ops"][sp[0][1]].get("k") in ("copy", "move"):
+                                l, sp = strip_place(ds_[0][4]["ops"][sp[0][1]]["place"])
                         for _ in range(4):      # look through plain copies of the parameter
                             ds = A.D(body).of(l)
                             if len(ds) == 1 and ds[0][0] == "stmt" and ds[0][4]["k"] == "use" and ds[0][4]["op"]["k"] in ("copy", "move"):
